@@ -290,3 +290,4 @@ from pyvc.harness import reuse as _reuse_aes  # noqa: E402
 for _n in (1, 16, 17):
     _reuse_aes("C16/adapter[len=%d]" % _n, "C02/AES128Proxy=zero-padded-CBC[len=%d]" % _n)
 _reuse_aes("C16/adapter.bad-lengths", "C02/AES128Proxy.bad-lengths=>ValueError")
+_reuse("C07/Bec2File.blocks-keyed-by-kind", "C02/Bec2File.blocks-keyed-by-kind")
